@@ -510,7 +510,9 @@ def main(argv):
 
     regenerate()
     reg = load_registry()
-    sel = [h for h in reg if pid in h["props"] and (tier == "thorough" or h.get("tier", "quick") == "quick")]
+    def in_quick(h):
+        return h.get("tier", "quick") == "quick" and ("quick_for" not in h or pid in h["quick_for"])
+    sel = [h for h in reg if pid in h["props"] and (tier == "thorough" or in_quick(h))]
     if not sel:
         log("no harnesses registered for", pid)
         return 2
@@ -526,23 +528,34 @@ def main(argv):
 
     byname = {h["name"]: h for h in sel}
     known = load_known()
-    violations, known_hits, inconclusive, unreproduced = [], [], [], []
+    violations, known_hits, inconclusive, unreproduced, also_failed = [], [], [], [], []
+    viol = sorted([r for r in results if r["status"] == "violation"], key=lambda r: (r.get("solver_s") or 1e9))
     for r in results:
-        h = byname[r["name"]]
-        if r["status"] == "violation":
-            reproduced, sig, path = triage_violation(pid, h, r)
-            r["replay"] = path
-            r["signature"] = sig
-            kf = [k for k in known if k.get("status") == "known" and k.get("property") == pid
-                  and k.get("signature") == sig]
-            if not reproduced:
-                unreproduced.append(r)
-            elif kf:
-                known_hits.append((r, kf[0]))
-            else:
-                violations.append(r)
-        elif r["status"] in ("inconclusive", "twin_bad"):
+        if r["status"] in ("inconclusive", "twin_bad"):
             inconclusive.append(r)
+    # Counterexample extraction re-runs CBMC in trace mode (several times slower than the check):
+    # triage the cheapest failing harness first; once one counterexample of this property is
+    # confirmed (or suppressed as known), the remaining failing harnesses are listed with it.
+    confirmed = None
+    for r in viol:
+        h = byname[r["name"]]
+        if confirmed is not None:
+            r["replay"] = confirmed["replay"]
+            r["signature"] = h["name"]
+            also_failed.append(r)
+            continue
+        reproduced, sig, path = triage_violation(pid, h, r)
+        r["replay"] = path
+        r["signature"] = sig
+        kf = [k for k in known if k.get("status") == "known" and k.get("property") == pid
+              and k.get("signature") == sig]
+        if not reproduced:
+            unreproduced.append(r)
+        elif kf:
+            known_hits.append((r, kf[0]))
+        else:
+            violations.append(r)
+            confirmed = r
 
     # ---- evidence
     passed = [r for r in results if r["status"] in ("pass", "twin_ok")]
@@ -587,7 +600,7 @@ def main(argv):
         },
         "assumptions": assumptions,
         "wall_s": round(time.time() - t_start, 2),
-        "violations": len(violations),
+        "violations": len(violations) + len(also_failed),
     }
     with open(evpath, "w") as f:
         json.dump(ev, f, indent=1)
@@ -602,6 +615,8 @@ def main(argv):
         for r in violations:
             log("VIOLATION property=%s replay=%s" % (pid, r["replay"]))
             log("  harness %s failed: %s" % (r["name"], "; ".join(r["real_failed_checks"][:4])))
+        for r in also_failed:
+            log("  also failed: %s: %s" % (r["name"], "; ".join(r["real_failed_checks"][:2])))
         return 1
     if inconclusive or unreproduced:
         return 2
